@@ -600,13 +600,9 @@ func tail(s string, n int) string {
 	return strings.Join(ls, "\n")
 }
 
-func crashIsViolation(prop string) bool {
-	switch prop {
-	case "C06", "C04", "C07", "C11", "C20":
-		return true
-	}
-	return false
-}
+// crashIsViolation: a panic inside the library kills the application, which
+// breaks every property whose workload was running.
+func crashIsViolation(prop string) bool { return true }
 
 func crashHeadline(stderr string) string {
 	for _, ln := range strings.Split(stderr, "\n") {
